@@ -96,6 +96,7 @@ def P_rows():
         ("int(<start>.<r>[0]) <= 2", lambda t: truthy_all([(kids(m)[0],) for m in dot(S(t), "<r>")], lambda m: int(m) <= 2)),
         ("int(<x>) <= 2 and str(<r>) != '2,2'", lambda t: truthy_all([(m,) for m in X(t)], lambda m: int(m) <= 2) and truthy_all([(m,) for m in R(t)], lambda m: str(m) != "2,2")),
         ("int(<x>) >= 3 or str(<r>) == '1,1'", lambda t: truthy_all([(m,) for m in X(t)], lambda m: int(m) >= 3) or truthy_all([(m,) for m in R(t)], lambda m: str(m) == "1,1")),
+        ("1 < int(<x>) < 3", lambda t: truthy_all([(m,) for m in X(t)], lambda m: 1 < int(m) < 3)),            # chained comparison
         ("not int(<x>) == 3", lambda t: truthy_all([(m,) for m in X(t)], lambda m: not int(m) == 3)),
         ("forall <e> in <start>.<r>: int(<e>.<x>) <= 2", lambda t: all(truthy_all([(m,) for m in direct(e, "<x>")], lambda m: int(m) <= 2) for e in dot(S(t), "<r>"))),
         ("exists <e> in <start>.<r>: str(<e>) == '1,2'", lambda t: any(str(e) == "1,2" for e in dot(S(t), "<r>"))),
@@ -213,7 +214,7 @@ def run(tier="quick", seed=0, pid="C07"):
                 samples.append({"grammar": gname, "constraint": text, "trees": len(trees)})
     return {
         "evaluations": evaluations, "distinct_nontrivial": len(distinct),
-        "rule": ("52 constraint programs (rule / . / .. / [] / * / |..| selectors, and/or/not, comprehensions, forall/exists incl. nested and "
+        "rule": ("53 constraint programs (rule / . / .. / [] / * / |..| selectors, and/or/not, comprehensions, forall/exists incl. nested and "
                  "rebinding, sub-expressions that raise) x the words of three small grammars (quick: every ~2nd word; thorough: all), each "
                  "tree checked twice with the same constraint objects; distinct = distinct (program, word); all non-trivial"),
         "bound": "two grammars, words up to 9 atoms", "samples": samples, "violations": violations, "undecided": undecided,
